@@ -937,13 +937,17 @@ def run_flip(entry, case, count=None):
 
             def guarded(element, A):
                 wf = wavefront(A)
-                keep = (np.asarray(wf.electric_field).tobytes(), str(wf.electric_field.dtype), buffer_of(wf.electric_field).strides, A.tobytes(),
-                        repr(wf.wavelength), id(wf.electric_field.grid))
+                def state():
+                    sv = wf.input_stokes_vector
+                    return (np.asarray(wf.electric_field).tobytes(), str(wf.electric_field.dtype), buffer_of(wf.electric_field).strides, A.tobytes(),
+                            repr(wf.wavelength), id(wf.electric_field.grid), grid_bytes(wf.electric_field.grid),
+                            None if sv is None else np.asarray(sv).tobytes(), type(wf.electric_field).__name__)
+                keep = state()
                 outs, _ = call(element, direction, wf)
-                now = (np.asarray(wf.electric_field).tobytes(), str(wf.electric_field.dtype), buffer_of(wf.electric_field).strides, A.tobytes(),
-                       repr(wf.wavelength), id(wf.electric_field.grid))
+                now = state()
                 if now != keep:
-                    fail('input-modified', step, 'the wavefront passed in (or the array it was built from) was changed by %s' % direction)
+                    fail('input-modified', step, 'the wavefront passed in (%s) was changed by %s' % (', '.join(n for n, x, y in zip(
+                        ('field values', 'field dtype', 'strides', 'the array it was built from', 'wavelength', 'grid identity', 'grid contents', 'Stokes vector', 'field class'), keep, now) if x != y), direction))
                 return out_arrays(outs), [(str(o.electric_field.dtype), type(o.electric_field).__name__) + m for o, m in zip(outs, out_meta(outs))]
 
             # the reference: a fresh element, given the same VALUES in the same precision as a plain C-contiguous array
@@ -1696,6 +1700,93 @@ def keep_excited_selftest(ctx):
                                           'flagged': flagged, 'homogeneous': homogeneous_ok})
 
 
+def first_fft_tie(ctx):
+    """The effect programs `fourierFilter[padded]` / `fourierFilter[unpadded]` (Model/Elements.lean; theorems
+    fourierFilter_safeAll, fourierFilter_firstFft) against a real `hcipy.FourierFilter`: the model says what the FIRST
+    Fourier transform of `_operation` is handed — (its argument uses the caller's buffer, it may overwrite its argument).
+    Observed by spying on `fftn` as the filter calls it (np.shares_memory of the argument's buffer with the array the
+    caller's field was built from; the `overwrite_x` flag), for q = 1 / 2 / 3 x field style x dtype x tensor shape x
+    direction, directly and through FresnelPropagator(zero_padding=q).  The seeded class
+    `fourierFilterIdentityTestOld[wrapper,unpadded]` must be rejected by the model's checker."""
+    import hcipy
+    from hcipy.fourier import fourier_operations as fo
+    names = ('fourierFilter[padded]', 'fourierFilter[unpadded]')
+    olds = [(ns, sd, pd) for ns in (0, 1) for sd in (0, 1) for pd in (0, 1)]
+    answers = ctx.model(['C06 first-fft ' + n for n in names] + ['C06 first-fft-old %d %d %d' % o for o in olds])
+    pred = {}
+    for n, ans in zip(list(names) + olds, answers):
+        toks = dict(t.split('=', 1) for t in ans.split(' ')[1:] if '=' in t)
+        if not ans.startswith('ok ') or set(toks) != {'safe', 'sharesInput', 'overwrite'}:
+            raise MachineryError('unexpected first-fft answer %r' % ans)
+        pred[n] = tuple({'1': 'true', '0': 'false'}.get(toks[k], toks[k]) for k in ('safe', 'sharesInput', 'overwrite'))
+    if pred[names[0]][0] != 'true' or pred[names[1]][0] != 'true':
+        ctx.disagree('C06 first-fft', {'note': 'the shipped programs must be accepted', 'model': {str(k): v for k, v in pred.items()}})
+    for ns, sd, pd in olds:
+        # the identity-test class as the seeded regression describes it: harmful exactly for new-style fields that already
+        # have the dtype and no padding; the first FFT may overwrite whenever there is padding or the cast "is not" the field
+        want = ('false' if (ns and sd and not pd) else 'true', 'false' if (pd or not sd) else 'true', 'true' if (pd or ns or not sd) else 'false')
+        ctx.traces_validated += 1
+        if pred[(ns, sd, pd)] != want:
+            ctx.disagree('C06 first-fft-old', {'new-style, same dtype, padded': [ns, sd, pd], 'model': pred[(ns, sd, pd)], 'description': want})
+    rng = np.random.default_rng([ctx.seed, 6, 12])
+    combos = [(q, style, dt, 'scalar', 'forward', 'filter') for q in (1, 2) for style in FLIP_STYLES for dt in ('complex128', 'complex64', 'float64')]
+    for _ in range(ctx.scale(20, 150)):
+        combos.append((int(rng.integers(1, 4)), FLIP_STYLES[int(rng.integers(2))], ('complex128', 'complex64', 'float64')[int(rng.integers(3))],
+                       registry.KINDS[int(rng.integers(3))], ('forward', 'backward')[int(rng.integers(2))], ('filter', 'fresnel')[int(rng.integers(2))]))
+    seen = {}
+    for q, style, dt, kind, direction, via in combos:
+        restore = set_config({}, style)
+        fftn = fo._fft_module.fftn
+        compute_functions = fo.FourierFilter._compute_functions
+        rec = []
+        armed = []
+        try:
+            grid = hcipy.make_uniform_grid([int(rng.integers(4, 9)), int(rng.integers(4, 9))], [1.0, 1.0])
+            A = registry.dyadic_complex(rng, registry.field_shape(grid, kind), bits=4)
+            A = np.ascontiguousarray(A.real if dt == 'float64' else A.astype(dt))
+
+            def spy(x, *args, **kw):
+                if armed:       # transforms made while the filter builds its transfer function are not the filter's own
+                    rec.append((bool(np.shares_memory(buffer_of(x), caller[0])), bool(kw.get('overwrite_x', False))))
+                return fftn(x, *args, **kw)
+
+            def arm(self, field):
+                res = compute_functions(self, field)
+                armed.append(1)
+                return res
+            if via == 'filter':
+                op = hcipy.FourierFilter(grid, lambda g: hcipy.Field(np.exp(-0.125j * (g.x**2 + g.y**2)), g), q)
+                arg = hcipy.Field(A, grid)
+            else:
+                op = hcipy.FresnelPropagator(grid, 0.5, zero_padding=q)
+                arg = make_wf(hcipy.Field(A, grid), kind, 1.0, registry.STOKES[0])
+            # the caller's buffer: the array of the field handed to the filter (a Wavefront built from real values holds a complex copy)
+            caller = [buffer_of(arg.electric_field) if via == 'fresnel' else A]
+            fo._fft_module.fftn = spy
+            fo.FourierFilter._compute_functions = arm
+            with warnings.catch_warnings():
+                warnings.simplefilter('ignore')
+                getattr(op, direction)(arg)
+        except Exception as ex:     # noqa
+            ctx.disagree('C06 first-fft', {'q': q, 'style': style, 'dtype': dt, 'kind': kind, 'direction': direction, 'via': via,
+                                           'fault-while-observing': '%s: %s' % (type(ex).__name__, str(ex)[:160])})
+            continue
+        finally:
+            fo._fft_module.fftn = fftn
+            fo.FourierFilter._compute_functions = compute_functions
+            restore()
+        name = names[0] if q != 1 else names[1]
+        got = tuple('true' if b else 'false' for b in rec[0]) if rec else ('-', '-')
+        ctx.traces_validated += 1
+        ctx.count('first-fft:q=%d %s %s' % (q, style, 'real' if dt == 'float64' else 'complex'))
+        seen[(q != 1, got)] = seen.get((q != 1, got), 0) + 1
+        if got != pred[name][1:]:
+            ctx.disagree('C06 first-fft', {'q': q, 'style': style, 'dtype': dt, 'kind': kind, 'direction': direction, 'via': via,
+                                           'model (sharesInput, overwrite)': pred[name][1:], 'running code': got, 'program': name})
+        ctx.case(None, nontrivial_key=('first-fft', q, style, dt, kind, direction, via))
+    ctx.extra['first_fft_observations'] = {('padded' if p else 'unpadded') + ' shares=%s overwrite=%s' % g: n for (p, g), n in seen.items()}
+
+
 # ---------------------------------------------------------------------------------------------
 
 def plan(ctx):
@@ -1786,6 +1877,7 @@ def run(ctx):
     load_internal_declarations(ctx)
     history_tie(ctx)
     keep_excited_selftest(ctx)
+    first_fft_tie(ctx)
     internal_seen = {}
     registries, cases = plan(ctx)
     entries = registries[0]
